@@ -408,4 +408,333 @@ theorem forward_body (hop : List Str) (repl : Str → Str) (u : Upstream) (r : R
 theorem forward_url (hop : List Str) (repl : Str → Str) (u : Upstream) (r : Request) :
     (forward hop repl u r).url = director u.target u.without r.url := rfl
 
+/-! ### canonical keys -/
+
+def caseStep (u : Bool) (c : UInt8) : UInt8 :=
+  if u && isLower c then c - 32 else if !u && isUpper c then c + 32 else c
+
+theorem canonGo_cons (u : Bool) (c : UInt8) (cs : Str) :
+    canonGo u (c :: cs) = caseStep u c :: canonGo (caseStep u c == 45) cs := rfl
+
+set_option maxRecDepth 8000 in
+theorem caseStep_idem_true : ∀ c : UInt8, (caseStep true (caseStep true c) == caseStep true c) = true :=
+  all_u8 _ (by decide)
+
+set_option maxRecDepth 8000 in
+theorem caseStep_idem_false : ∀ c : UInt8, (caseStep false (caseStep false c) == caseStep false c) = true :=
+  all_u8 _ (by decide)
+
+set_option maxRecDepth 8000 in
+theorem caseStep_valid_true : ∀ c : UInt8, (!validFieldByte c || validFieldByte (caseStep true c)) = true :=
+  all_u8 _ (by decide)
+
+set_option maxRecDepth 8000 in
+theorem caseStep_valid_false : ∀ c : UInt8, (!validFieldByte c || validFieldByte (caseStep false c)) = true :=
+  all_u8 _ (by decide)
+
+theorem caseStep_idem (u : Bool) (c : UInt8) : caseStep u (caseStep u c) = caseStep u c := by
+  cases u
+  · simpa using caseStep_idem_false c
+  · simpa using caseStep_idem_true c
+
+theorem caseStep_valid (u : Bool) (c : UInt8) (h : validFieldByte c = true) : validFieldByte (caseStep u c) = true := by
+  cases u
+  · have := caseStep_valid_false c; simpa [h] using this
+  · have := caseStep_valid_true c; simpa [h] using this
+
+theorem canonGo_idem (u : Bool) (s : Str) : canonGo u (canonGo u s) = canonGo u s := by
+  induction s generalizing u with
+  | nil => rfl
+  | cons c cs ih => rw [canonGo_cons, canonGo_cons, caseStep_idem, ih]
+
+theorem canonGo_valid (u : Bool) (s : Str) (h : s.all validFieldByte = true) :
+    (canonGo u s).all validFieldByte = true := by
+  induction s generalizing u with
+  | nil => rfl
+  | cons c cs ih =>
+    simp only [List.all_cons, Bool.and_eq_true] at h
+    rw [canonGo_cons]
+    simp only [List.all_cons, Bool.and_eq_true]
+    exact ⟨caseStep_valid u c h.1, ih _ h.2⟩
+
+/-- `CanonicalMIMEHeaderKey` is idempotent -/
+theorem canon_idem (s : Str) : canon (canon s) = canon s := by
+  unfold canon
+  by_cases h : s.all validFieldByte = true
+  · simp only [h, if_true, canonGo_valid true s h, canonGo_idem]
+  · simp [h]
+
+/-- all keys of the map are in canonical form (what net/http produces) -/
+def CanonicalKeys (h : Hdr) : Prop := ∀ e ∈ h, canon e.1 = e.1
+
+theorem CanonicalKeys_delRaw (h : Hdr) (hc : CanonicalKeys h) (k : Str) : CanonicalKeys (h.delRaw k) := by
+  intro e he
+  exact hc e (List.mem_filter.mp he).1
+
+theorem CanonicalKeys_setRaw (h : Hdr) (hc : CanonicalKeys h) (k : Str) (vv : List Str) (hk : canon k = k) :
+    CanonicalKeys (h.setRaw k vv) := by
+  intro e he
+  rcases List.mem_cons.mp he with rfl | he
+  · exact hk
+  · exact CanonicalKeys_delRaw h hc k e he
+
+theorem NoEmpty_setRaw (h : Hdr) (hne : Hdr.NoEmpty h) (k : Str) (vv : List Str) (hv : vv ≠ []) :
+    Hdr.NoEmpty (h.setRaw k vv) := by
+  intro e he
+  rcases List.mem_cons.mp he with rfl | he
+  · exact hv
+  · exact Hdr.NoEmpty_delRaw h hne k e he
+
+/-- invariant kept by every header operation of the proxy -/
+def Good (h : Hdr) : Prop := CanonicalKeys h ∧ Hdr.NoEmpty h
+
+theorem Good_del (h : Hdr) (hg : Good h) (name : Str) : Good (h.del name) :=
+  ⟨CanonicalKeys_delRaw h hg.1 _, Hdr.NoEmpty_delRaw h hg.2 _⟩
+
+theorem Good_set (h : Hdr) (hg : Good h) (name v : Str) : Good (h.set name v) :=
+  ⟨CanonicalKeys_setRaw h hg.1 _ _ (canon_idem name), NoEmpty_setRaw h hg.2 _ _ (by simp)⟩
+
+theorem Good_add (h : Hdr) (hg : Good h) (name v : Str) : Good (h.add name v) :=
+  ⟨CanonicalKeys_setRaw h hg.1 _ _ (canon_idem name), NoEmpty_setRaw h hg.2 _ _ (by simp)⟩
+
+theorem Good_foldl_del (names : List Str) (h : Hdr) (hg : Good h) : Good (names.foldl Hdr.del h) := by
+  induction names generalizing h with
+  | nil => exact hg
+  | cons n ns ih => exact ih _ (Good_del h hg n)
+
+theorem Good_stripHop (hop : List Str) (h : Hdr) (hg : Good h) : Good (stripHop hop h) :=
+  Good_foldl_del _ _ (Good_foldl_del _ _ hg)
+
+theorem Good_applyRule (repl : Str → Str) (h : Hdr) (hg : Good h) (r : Str × List Str) : Good (applyRule repl h r) := by
+  obtain ⟨field, vs⟩ := r
+  have hset : ∀ name : Str, Good (match vs.getLast? with
+      | some v => if repl v != [] then h.set name (repl v) else h
+      | none => h) := by
+    intro name
+    cases vs.getLast? with
+    | none => exact hg
+    | some v =>
+      by_cases hv : (repl v != []) = true
+      · simp only [hv, if_true]; exact Good_set h hg _ _
+      · simp only [hv, Bool.false_eq_true, if_false]; exact hg
+  have hadd : ∀ (rest : Str) (vs : List Str) (h : Hdr), Good h →
+      Good (vs.foldl (fun h v => if repl v != [] then h.add rest (repl v) else h) h) := by
+    intro rest vs
+    induction vs with
+    | nil => intro h hg; exact hg
+    | cons v vs ih =>
+      intro h hg
+      simp only [List.foldl_cons]
+      apply ih
+      by_cases hv : (repl v != []) = true
+      · simp only [hv, if_true]; exact Good_add h hg _ _
+      · simp only [hv, Bool.false_eq_true, if_false]; exact hg
+  cases field with
+  | nil => simp only [applyRule]; exact hset []
+  | cons c rest =>
+    simp only [applyRule]
+    by_cases hp : (c == plus) = true
+    · simp only [hp, if_true]; exact hadd rest vs h hg
+    · simp only [hp, Bool.false_eq_true, if_false]
+      by_cases hm : (c == minus) = true
+      · simp only [hm, if_true]; exact Good_del h hg rest
+      · simp only [hm, Bool.false_eq_true, if_false]; exact hset (c :: rest)
+
+theorem Good_applyRules (repl : Str → Str) (rules : Rules) (h : Hdr) (hg : Good h) : Good (applyRules repl h rules) := by
+  unfold applyRules
+  induction rules generalizing h with
+  | nil => exact hg
+  | cons r rs ih => exact ih _ (Good_applyRule repl h hg r)
+
+/-! ### copyHeader -/
+
+theorem mem_dedup (l : List Str) (k : Str) : k ∈ dedup l ↔ k ∈ l := by
+  induction l with
+  | nil => simp [dedup]
+  | cons x xs ih =>
+    simp only [dedup, List.mem_cons, List.mem_filter, ih]
+    constructor
+    · rintro (h | ⟨h, _⟩)
+      · exact Or.inl h
+      · exact Or.inr h
+    · rintro (h | h)
+      · exact Or.inl h
+      · by_cases hk : k = x
+        · exact Or.inl hk
+        · exact Or.inr ⟨h, by simp [hk]⟩
+
+theorem nodup_dedup (l : List Str) : (dedup l).Nodup := by
+  induction l with
+  | nil => simp [dedup]
+  | cons x xs ih =>
+    simp only [dedup, List.nodup_cons, List.mem_filter]
+    refine ⟨?_, ?_⟩
+    · rintro ⟨_, h⟩; simp at h
+    · exact List.Nodup.sublist List.filter_sublist ih
+
+theorem mem_keys (h : Hdr) (k : Str) : k ∈ h.keys ↔ h.has k = true := by
+  unfold Hdr.keys Hdr.has
+  rw [mem_dedup, List.any_eq_true]
+  constructor
+  · intro hk
+    obtain ⟨e, he, rfl⟩ := List.mem_map.mp hk
+    exact ⟨e, he, by simp⟩
+  · rintro ⟨e, he, hek⟩
+    exact List.mem_map.mpr ⟨e, he, by simpa using hek⟩
+
+theorem vals_of_not_has (h : Hdr) (k : Str) (hn : h.has k = false) : h.vals k = [] := by
+  induction h with
+  | nil => rfl
+  | cons e h ih =>
+    rw [Hdr.has_cons] at hn
+    simp only [Bool.or_eq_false_iff, decide_eq_false_iff_not] at hn
+    rw [Hdr.vals_cons]
+    simp [hn.1, ih hn.2]
+
+theorem has_add (h : Hdr) (name v k' : Str) :
+    (h.add name v).has k' = (decide (k' = canon name) || h.has k') := Hdr.has_setRaw h _ _ k'
+
+theorem foldl_add (k : Str) (hk : canon k = k) (vs : List Str) (d : Hdr) (k' : Str) :
+    ((vs.foldl (fun d v => d.add k v) d).vals k' = if k' = k then d.vals k ++ vs else d.vals k') ∧
+    ((vs.foldl (fun d v => d.add k v) d).has k' = if k' = k then (d.has k || vs != []) else d.has k') := by
+  induction vs generalizing d with
+  | nil => by_cases h : k' = k <;> simp [h]
+  | cons v vs ih =>
+    simp only [List.foldl_cons]
+    obtain ⟨i1, i2⟩ := ih (d.add k v)
+    rw [i1, i2, Hdr.vals_add, Hdr.vals_add, has_add, has_add, hk]
+    by_cases h : k' = k
+    · subst h; simp
+    · simp [h]
+
+def copyKey (skip : List Str) (src : Hdr) (d : Hdr) (k : Str) : Hdr :=
+  if d.has k && skip.contains k then d
+  else
+    let d := if d.has k && k != sServer then d.del k else d
+    (src.vals k).foldl (fun d v => d.add k v) d
+
+theorem copyHeader_eq (skip : List Str) (dst src : Hdr) :
+    copyHeader skip dst src = src.keys.foldl (copyKey skip src) dst := rfl
+
+/-- what `copyHeader` makes of one name that the source carries -/
+def mergeVals (skip : List Str) (k : Str) (dHas : Bool) (dVals sVals : List Str) : List Str :=
+  if dHas && skip.contains k then dVals
+  else if dHas && k != sServer then sVals
+  else dVals ++ sVals
+
+theorem copyKey_spec (skip : List Str) (src d : Hdr) (k : Str) (hk : canon k = k) (hv : src.vals k ≠ []) (k' : Str) :
+    ((copyKey skip src d k).vals k' = if k' = k then mergeVals skip k (d.has k) (d.vals k) (src.vals k) else d.vals k') ∧
+    ((copyKey skip src d k).has k' = if k' = k then true else d.has k') := by
+  unfold copyKey mergeVals
+  by_cases h1 : (d.has k && skip.contains k) = true
+  · simp only [h1, if_true]
+    have : d.has k = true := by simp only [Bool.and_eq_true] at h1; exact h1.1
+    by_cases h : k' = k
+    · subst h; simp [this]
+    · simp [h]
+  · simp only [h1, Bool.false_eq_true, if_false]
+    by_cases h2 : (d.has k && k != sServer) = true
+    · simp only [h2, if_true]
+      obtain ⟨i1, i2⟩ := foldl_add k hk (src.vals k) (d.del k) k'
+      rw [i1, i2, Hdr.vals_del, Hdr.vals_del, Hdr.has_del, Hdr.has_del, hk]
+      by_cases h : k' = k
+      · subst h; simp [hv]
+      · simp [h]
+    · simp only [h2, Bool.false_eq_true, if_false]
+      obtain ⟨i1, i2⟩ := foldl_add k hk (src.vals k) d k'
+      rw [i1, i2]
+      by_cases h : k' = k
+      · subst h; simp [hv]
+      · simp [h]
+
+theorem foldl_copyKey (skip : List Str) (src : Hdr) (ks : List Str) (hnd : ks.Nodup) (hc : ∀ k ∈ ks, canon k = k)
+    (hv : ∀ k ∈ ks, src.vals k ≠ []) (d : Hdr) (k' : Str) :
+    ((ks.foldl (copyKey skip src) d).vals k' =
+      if k' ∈ ks then mergeVals skip k' (d.has k') (d.vals k') (src.vals k') else d.vals k') ∧
+    ((ks.foldl (copyKey skip src) d).has k' = if k' ∈ ks then true else d.has k') := by
+  induction ks generalizing d with
+  | nil => simp
+  | cons k ks ih =>
+    simp only [List.foldl_cons]
+    have hnd' := (List.nodup_cons.mp hnd)
+    obtain ⟨i1, i2⟩ := ih hnd'.2 (fun x hx => hc x (List.mem_cons_of_mem _ hx))
+      (fun x hx => hv x (List.mem_cons_of_mem _ hx)) (copyKey skip src d k)
+    obtain ⟨c1, c2⟩ := copyKey_spec skip src d k (hc k (List.mem_cons_self ..)) (hv k (List.mem_cons_self ..)) k'
+    rw [i1, i2, c1, c2]
+    by_cases hk : k' = k
+    · subst hk
+      simp [hnd'.1]
+    · by_cases hm : k' ∈ ks
+      · simp [hk, hm]
+      · simp [hk, hm]
+
+theorem vals_copyHeader (skip : List Str) (dst src : Hdr) (hg : Good src) (k : Str) :
+    (copyHeader skip dst src).vals k =
+      if src.has k then mergeVals skip k (dst.has k) (dst.vals k) (src.vals k) else dst.vals k := by
+  rw [copyHeader_eq]
+  have hc : ∀ x ∈ src.keys, canon x = x := by
+    intro x hx
+    rw [mem_keys, Hdr.has, List.any_eq_true] at hx
+    obtain ⟨e, he, hek⟩ := hx
+    have := hg.1 e he
+    have hx' : e.1 = x := by simpa using hek
+    rw [← hx']; exact this
+  have hv : ∀ x ∈ src.keys, src.vals x ≠ [] := by
+    intro x hx
+    rw [mem_keys, Hdr.has_iff_vals src hg.2] at hx
+    simpa using hx
+  rw [(foldl_copyKey skip src src.keys (nodup_dedup _) hc hv dst k).1]
+  by_cases hh : src.has k = true
+  · have : k ∈ src.keys := (mem_keys src k).mpr hh
+    simp [hh, this]
+  · have : ¬ k ∈ src.keys := fun hm => hh ((mem_keys src k).mp hm)
+    simp [hh, this]
+
+/-! ### the response side as a whole -/
+
+theorem vals_merged (hop skip : List Str) (hc : CanonicalNames hop) (repl : Str → Str) (down : Rules) (pre : Hdr)
+    (res : Response) (hg : Good res.header) (hni : nonInterfering down = true) (k : Str) :
+    (copyHeader skip pre (applyRules repl (stripHop hop res.header) down)).vals k =
+      expectRespVals hop skip repl down pre res k := by
+  have hg3 : Good (applyRules repl (stripHop hop res.header) down) :=
+    Good_applyRules repl down _ (Good_stripHop hop _ hg)
+  have hv : (applyRules repl (stripHop hop res.header) down).vals k =
+      ruleEffect repl down k (if isHop hop res.header k then [] else res.header.vals k) := by
+    rw [vals_applyRules _ _ _ _ hni, vals_stripHop hop hc]
+  rw [vals_copyHeader skip pre _ hg3 k, Hdr.has_iff_vals _ hg3.2, hv]
+  unfold expectRespVals mergeVals
+  simp only
+  generalize ruleEffect repl down k (if isHop hop res.header k then [] else res.header.vals k) = s2
+  cases hp : pre.has k
+  · have := vals_of_not_has pre k hp
+    by_cases h2 : s2 = [] <;> simp [h2, this]
+  · by_cases h2 : s2 = []
+    · simp [h2]
+    · cases hs : skip.contains k
+      · by_cases hsv : k = sServer
+        · simp [h2, hs, hsv]
+        · have : (k == sServer) = false := by simp [hsv]
+          simp [h2, hs, hsv, this]
+      · simp [h2, hs]
+
+theorem vals_respond (hop skip : List Str) (hc : CanonicalNames hop) (repl : Str → Str) (down : Rules) (pre : Hdr)
+    (res : Response) (hg : Good res.header) (hni : nonInterfering down = true) (k : Str) :
+    (respond hop skip repl down pre res).header.vals k =
+      if res.announced.length > 0 ∧ k = sTrailer then res.announced
+      else expectRespVals hop skip repl down pre res k := by
+  unfold respond
+  simp only
+  by_cases ha : res.announced.length > 0
+  · simp only [ha, if_true, true_and]
+    rw [Hdr.vals_setRaw]
+    by_cases hk : k = sTrailer
+    · simp [hk]
+    · simp only [hk, if_false]
+      exact vals_merged hop skip hc repl down pre res hg hni k
+  · simp only [ha, if_false, false_and]
+    exact vals_merged hop skip hc repl down pre res hg hni k
+
+theorem respond_status (hop skip : List Str) (repl : Str → Str) (down : Rules) (pre : Hdr) (res : Response) :
+    (respond hop skip repl down pre res).status = res.status := rfl
+
 end Casket.ProxyMsg
